@@ -64,6 +64,11 @@ class World:
             self.by_dev.clear()
         t = Target(devtype, qualifier)
         self.n += 1
+        # identification strings as devices really send them: ASCII, NUL or FFh padded, 8-bit characters, all zero
+        t.vendor, t.product, t.rev = [(b"VMON    ", b"SIMULATED LUN   ", b"0001"), (b"ACME\xff\xff\xff\xff", b"Bridge\xff\xff\xff\xff\xff\xff\xff\xff\xff\xff", b"\xff\xff\xff\xff"),
+                                     (b"M\xfcller ", b"Ger\xe4t \xb5SD      ", b"1.0\xb0"), (b"USB\0\0\0\0\0", b"Flash\0\0\0\0\0\0\0\0\0\0\0", b"\0\0\0\0"),
+                                     (bytes(8), bytes(16), bytes(4)), (b"\xe6\x97\xa5\xe6\x9c\xac  ", b"\xe3\x83\x87\xe3\x82\xa3\xe3\x82\xb9\xe3\x82\xaf    ", b"v\xc2\xb2 ")][self.n % 6]
+        t.vendor, t.product, t.rev = t.vendor.ljust(8)[:8], t.product.ljust(16)[:16], t.rev.ljust(4)[:4]
         # standard INQUIRY data of every legal size: the minimum, the usual ones, and more than the 96 bytes asked for
         t.inquiry_length = (96, 36, 96, 97, 128, 255, 256, 260, 74, 58, 100, 200)[self.n % 12]
         if self.transport == "sgio":
@@ -229,14 +234,23 @@ def run_attach_faults(ctx, w, SCSI, t):
     attach either fails, or -- if the library retries -- ends with the type a GOOD INQUIRY really reported"""
     from vmon.spec import sense as SN
 
+    faults = [("cc", 0x70, key, asc) for key, asc in ((6, 0x29), (6, 0x28), (2, 0x04), (5, 0x24))]
+    # ... in descriptor format, with every sense key, and additional sense codes whose low nibble looks like a harmless key
+    faults += [("cc", rc, key, asc) for rc in (0x72, 0x73, 0x71) for key, asc in ((0xB, 0x00), (0xB, 0x10), (4, 0x40), (4, 0x41), (3, 0x11), (0, 0x00), (1, 0x17), (6, 0x29))]
+    # ... and with other statuses than CHECK CONDITION: named ones, obsolete ones, and the pseudo statuses a binding reports
+    # for a cancelled / failed / timed-out task
+    faults += [("status", st, None, None) for st in (0x08, 0x18, 0x28, 0x30, 0x40, 0x04, 0x10, 0x22, 0x14, 0xFF, 0x0F000000, 0x0F000001, 0x0F000002)]
     for devtype in (0x01, 0x05, 0x08, 0x00, 0x1F):
         for k in (1, 2, 3):
-            for key, asc in ((6, 0x29), (6, 0x28), (2, 0x04), (5, 0x24)):
+            for kind, rc, key, asc in faults:
+                if kind == "status" and (k > 1 or (t == "sgio" and rc > 0xFF)):
+                    continue
                 dev, tgt = w.new_device(devtype, 0)
                 for i in range(k):
-                    tgt.faults[i] = (2, SN.build(0x70, 0, key, asc, i, 18))
-                wit = {"transport": t, "types": [devtype], "inquiry_failures": k, "sense": [key, asc]}
-                ctx.case((t, "attach-faults", devtype, k, key, asc), True, sample=wit if ctx.want_sample() else None)
+                    tgt.faults[i] = (2, SN.build(rc, 0, key, asc, i, 18 if rc < 0x72 else 8)) if kind == "cc" else (rc, None)
+                wit = {"transport": t, "types": [devtype], "inquiry_failures": k, "sense": [rc, key, asc] if kind == "cc" else None, "status": rc if kind == "status" else 2}
+                ctx.add("attach_fault_kinds", "%s:%x" % (kind, rc))
+                ctx.case((t, "attach-faults", devtype, k, kind, rc, key, asc), True, sample=wit if ctx.want_sample() else None)
                 ctx.count("attach_fault_cases")
                 try:
                     SCSI(dev)
